@@ -140,10 +140,10 @@ WITNESS_TESTS = {
     'TestW_D1': ['C04'], 'TestW_D10_D19': ['C15', 'C18'], 'TestW_D11_D12_D13': ['C17'], 'TestW_D4': ['C05', 'C06', 'C07'],
     'TestW_D5_D6': ['C05', 'C08'], 'TestW_D7_D8': ['C10', 'C14', 'C13', 'C15', 'C09'], 'TestW_D2_D3': ['C01', 'C02', 'C04'],
     'TestW_D9': ['C02', 'C09'], 'TestW_D26': ['C04', 'C17'], 'TestW_D27_ChildDisposalErrorReachesParent': ['C12'], 'TestW_D15': ['C02', 'C15'],
-    'TestW_D31_InstanceUnderTwoInterfacesClosedOnce': ['C10', 'C12'], 'TestW_D32': ['C01', 'C08', 'C15'],
+    'TestW_D31_InstanceUnderTwoInterfacesClosedOnce': ['C10', 'C12'], 'TestW_D32': ['C01', 'C08', 'C15'], 'TestW_D33': ['C05', 'C04'],
 }
 WITNESS_STREAM = dict(
-    name='witness', pkg='', files=['harness/witness/vw_fixed_test.go', 'harness/witness/vw_d26_test.go', 'harness/witness/vw_d27_test.go', 'harness/witness/vw_d15_test.go', 'harness/witness/vw_d31_test.go', 'harness/witness/vw_d32_test.go'],
+    name='witness', pkg='', files=['harness/witness/vw_fixed_test.go', 'harness/witness/vw_d26_test.go', 'harness/witness/vw_d27_test.go', 'harness/witness/vw_d15_test.go', 'harness/witness/vw_d31_test.go', 'harness/witness/vw_d32_test.go', 'harness/witness/vw_d33_test.go'],
     test='TestW_', gotests=WITNESS_TESTS, model=False, seeded=False, replayable=False, new_marker='#',
     rule='witness tests of the defects repaired by fix: commits, re-run on every check',
 )
